@@ -238,6 +238,7 @@ impl Check for C03 {
         }
         crate::gen::session_variants(&mut r, &mut events, 4, 10, 8);
         crate::gen::nest_variants(&mut r, &mut events);
+        crate::gen::builtin_delete_variants(&mut r, &mut events, &["small_date", "convert_money", "number_on", "duration_parse"]);
         crate::gen::unwind_variants(&mut r, &mut events);
         crate::gen::decliner_variants(&mut r, &mut events);
         Trace { check: "C03".into(), seed, host_tz: env.host_tz.clone(), salt: r.next(), mode: if faults { "faults".into() } else { "fault-free".into() }, events }
